@@ -62,6 +62,16 @@ Theorem C38_timeout_only_after_busy :
 Proof. exact timeout_only_after_busy. Qed.
 Print Assumptions C38_timeout_only_after_busy.
 
+(* the executable sequential specification used by the correspondence (Corr/C38.v seq_step) is a run of the
+   atomic specification: from "t has invoked o" the specification reaches "t is done with seq_step's result" by
+   internal steps only, with seq_step's lock table, without touching other threads *)
+Theorem C38_sequential_spec_refines_atomic_spec :
+  forall t o names s a, apcs a t = APend o -> agrees s a ->
+  exists a', aexec a [] a' /\ apcs a' t = ADone (snd (seq_step t o names s)) /\
+             agrees (fst (seq_step t o names s)) a' /\ (forall t', t' <> t -> apcs a' t' = apcs a t').
+Proof. exact seq_step_refines. Qed.
+Print Assumptions C38_sequential_spec_refines_atomic_spec.
+
 (* non-vacuity: two sessions race for the same new name; one CAS wins, the other fails and re-reads *)
 Example C38_nonvacuous :
   exists s, cexec cinit contended_history s /\ owner_of s 5 = Some 1 /\ sset s 1 = [5] /\ sset s 2 = [].
